@@ -170,6 +170,12 @@ class Harness:
             return fn(*a)
         except sched.HangDetected:
             return [("hang-in-tawazi", f"the operation had not returned after {self.CASE_LIMIT_S:.0f}s and the thread was inside tawazi in three samples one second apart: {self._guard_frames}")]
+        except KeyError as e:
+            from .prog import TagResolutionError
+
+            if isinstance(e, TagResolutionError):
+                return [("tag-resolution", f"get_nodes_by_tag(<tag carried by exactly one call site>) did not return exactly that node: {e}")]
+            raise
         finally:
             self._case_t0 = None
 
@@ -198,6 +204,13 @@ class Harness:
                 self._case_t0 = None
                 res = CaseResult()
                 res.viol("tawazi-object-in-result", leak)
+                return self.record(case, res, False)
+            from .prog import TagResolutionError
+
+            if isinstance(e, TagResolutionError):
+                self._case_t0 = None
+                res = CaseResult()
+                res.viol("tag-resolution", f"get_nodes_by_tag(<tag carried by exactly one call site>) did not return exactly that node: {e}")
                 return self.record(case, res, False)
             # the harness itself broke: never reported as a property violation
             msg = traceback.format_exc()
